@@ -140,6 +140,7 @@ theorem diffStep_spec {rem : List BoundSet} {righty : BoundSet}
     unfold diffStep at hl ⊢
     simp only [List.foldr_cons]
     rw [hl]
+    unfold diffStepF
     cases hd : piece.difference righty with
     | panic => rw [hd] at hp; exact absurd hp id
     | none =>
@@ -211,7 +212,7 @@ theorem diffPieces_spec (a b : Range) (ha : ∀ s ∈ a, s.WF) (hb : ∀ s ∈ b
     obtain ⟨l, hl, hwfl, hseml⟩ := diffAlt_spec (ha lefty (by simp)) hb
     refine ⟨l ++ p, ?_, ?_, ?_⟩
     · unfold diffPieces at hp ⊢
-      simp only [List.foldr_cons, hp, hl]
+      simp only [List.foldr_cons, hp, diffPiecesF, hl]
     · intro s hs
       rw [List.mem_append] at hs
       rcases hs with hs | hs
